@@ -343,7 +343,14 @@ func (pc *parentController) processNextWorkItem() bool {
 func (pc *parentController) enqueueParentObject(obj interface{}) {
 	// If the parent doesn't match our selector, and it doesn't have our
 	// finalizer, we don't care about it.
-	if parent, ok := obj.(*unstructured.Unstructured); ok {
+	parent, ok := obj.(*unstructured.Unstructured)
+	if !ok {
+		// The deletion of a parent may be delivered as a tombstone.
+		if tombstone, isTombstone := obj.(cache.DeletedFinalStateUnknown); isTombstone {
+			parent, ok = tombstone.Obj.(*unstructured.Unstructured)
+		}
+	}
+	if ok && parent != nil {
 		if !controllerutil.ContainsFinalizer(parent, pc.finalizer.Name) && pc.doNotMatchLabels(parent.GetLabels()) {
 			return
 		}
